@@ -21,3 +21,40 @@ Theorem C01_packaged_domain :
   forallb (fun nt => codec_okb (mkcodec (snd nt))) CU.gen.GenCodec.codec_tables = true.
 Proof. exact c01_packaged_domain. Qed.
 Print Assumptions C01_packaged_domain.
+
+(* a concrete instance for the packaged configuration and the latin_1 table: MTI 1144, a 16-digit DE2, an integer DE4,
+   a date DE12 and two PDS keys given out of order.  The message is in the domain, both bitmap renderings round-trip,
+   and the only additional key is the carrier DE48 holding the two packed sub-elements *)
+Definition c01_ex_msg : dict :=
+  [ (KMTI, VStr [49; 49; 52; 52]%N);
+    (KDE 2, VStr [52; 52; 52; 52; 53; 53; 53; 53; 54; 54; 54; 54; 55; 55; 55; 55]%N);
+    (KDE 4, VInt 9999%Z);
+    (KDE 12, VDate (mkdt 2021 3 4 5 6 7));
+    (KPDS [48; 49; 52; 56]%N, VStr [88; 89; 90]%N);
+    (KPDS [48; 48; 50; 51]%N, VStr [65; 66]%N) ].
+Definition c01_ex_decoded : dict :=
+  [ (KMTI, VStr [49; 49; 52; 52]%N);
+    (KDE 2, VStr [52; 52; 52; 52; 53; 53; 53; 53; 54; 54; 54; 54; 55; 55; 55; 55]%N);
+    (KDE 4, VInt 9999%Z);
+    (KDE 12, VDate (mkdt 2021 3 4 5 6 7));
+    (KDE 48, VStr [48; 48; 50; 51; 48; 48; 50; 65; 66; 48; 49; 52; 56; 48; 48; 51; 88; 89; 90]%N);
+    (KPDS [48; 48; 50; 51]%N, VStr [65; 66]%N);
+    (KPDS [48; 49; 52; 56]%N, VStr [88; 89; 90]%N) ].
+
+Definition c01_ex_trip (cfg : cfgT) (cd : codec) (hexbm : bool) (m : dict) : result (nat * dict) :=
+  match dumps cfg cd hexbm m with
+  | Ok b => match loads cfg cd hexbm b with Ok d => Ok (length b, d) | _ => Raise EOther end
+  | _ => Raise EOther
+  end.
+
+Example C01_example :
+  match codec_named [108; 97; 116; 105; 110; 95; 49]%N with
+  | Some cd =>
+    let cfg := CU.gen.GenConfig.packaged_bit_config in
+    wf_msgb cfg cd c01_ex_msg = true /\
+    c01_ex_trip cfg cd false c01_ex_msg = Ok (84, c01_ex_decoded) /\
+    c01_ex_trip cfg cd true c01_ex_msg = Ok (100, c01_ex_decoded)
+  | None => False
+  end.
+Proof. vm_compute. repeat split. Qed.
+Print Assumptions C01_example.
